@@ -64,6 +64,8 @@ def case_strategy(draw, max_ops=25):
         op = {"op": k}
         if k in ("select_rsp", "answer_select"):
             op["status"] = draw(st.sampled_from([0, 0, 1, 2, 3]))
+        if k == "answer_select":
+            op["then_data"] = draw(st.booleans())
         if k in ("select_rsp", "deselect_rsp", "linktest_rsp"):
             op["sys"] = draw(st.sampled_from(["unsolicited", "stale"]))
         if k == "data":
@@ -260,10 +262,22 @@ def run_case(case, observe=None):
                     continue
                 s = sorted(m.open_select)[0]
                 m.open_select.discard(s)
-                rig.feed(e37.frame(0xFFFF, 0, op["status"], 0, e37.SELECT_RSP, s))
+                rsp = e37.frame(0xFFFF, 0, op["status"], 0, e37.SELECT_RSP, s)
                 if op["status"] == 0 and m.state == e37.NOT_SELECTED:
                     m.state = e37.SELECTED
                     stats["selects"] += 1
+                if op.get("then_data"):
+                    # the peer's first data message travels in the same segment as its Select.rsp: judged in the state the
+                    # response leaves the session in
+                    ds = nxt()
+                    rsp += e37.data_frame(0, 1, 1, 1, ds, b"")
+                    stats["data_states"].add(m.state)
+                    stats["data_behind_select_rsp"] = stats.get("data_behind_select_rsp", 0) + 1
+                    if m.state == e37.SELECTED:
+                        expect_delivered = 1
+                    else:
+                        expect_frames.append((e37.REJECT_REQ, ds, 4))
+                rig.feed(rsp)
             elif k == "select_rsp":
                 s = nxt() if op["sys"] == "unsolicited" else 0x3FFFF
                 rig.feed(e37.frame(0xFFFF, 0, op["status"], 0, e37.SELECT_RSP, s))
@@ -417,6 +431,8 @@ def run_task(name, kw, ctx):
             cls.append("inflight-select")
         if obs.get("select_racing_close"):
             cls.append("select-req-racing-close")
+        if obs.get("data_behind_select_rsp"):
+            cls.append("data-in-the-segment-of-select-rsp")
         if obs.get("reply_while_not_selected"):
             cls.append("reply-to-open-transaction-while-not-selected")
         if obs.get("preempt_hits"):
